@@ -1249,3 +1249,68 @@ def guards_of(node, upto):
                     out.append((x.test, True))
         prev, a = a, getattr(a, "_parent", None)
     return list(reversed(out))
+
+
+# ---------------------------------------------------------------------------
+# borrowing obligations of a neighbouring property
+
+
+class Borrow:
+    """A stand-in for a Report handed to another property's rule function:
+    obligations whose construct starts with one of ``constructs`` are
+    recorded in ``rep`` under ``rule`` (with a note where they come from),
+    everything else the function reports is dropped."""
+
+    def __init__(self, rep, rule, constructs, origin):
+        self._rep = rep
+        self._rule = rule
+        self._constructs = tuple(constructs)
+        self._origin = origin
+        self.n = 0
+        self.prop = rep.prop
+        self.tier = rep.tier
+        self.explanation = ""
+        self.assumptions = []
+
+    def _mine(self, construct):
+        return construct is not None and str(construct).startswith(
+            self._constructs)
+
+    def rule(self, rid, text):
+        pass
+
+    def note(self, *a, **k):
+        pass
+
+    def count(self, *a, **k):
+        pass
+
+    def require_min(self, *a, **k):
+        pass
+
+    def ok(self, rule, site, obligation, nontrivial=True):
+        pass
+
+    def bad(self, rule, site, obligation, construct, detail="", where=""):
+        self.check(False, rule, site, obligation, construct, detail, where)
+
+    def check(self, cond, rule, site, obligation, construct=None, detail="",
+              where=""):
+        if not self._mine(construct):
+            return
+        self.n += 1
+        self._rep.check(cond, self._rule, site, "%s  [shared with %s %s]" % (
+            obligation, self._origin, rule), construct=construct,
+            detail=detail, where=where)
+
+
+def borrow(repo, rep, rule, origin, func, constructs, minimum=1):
+    """run ``func(repo, proxy)`` of another property and keep the named
+    obligations; fail closed if none of them was evaluated"""
+    from .core import AnalysisError
+    b = Borrow(rep, rule, constructs, origin)
+    func(repo, b)
+    if b.n < minimum:
+        raise AnalysisError("borrowed obligations %s of %s vanished" % (
+            list(constructs), origin))
+    return b.n
